@@ -195,9 +195,27 @@ func (g *gen) leaf() *Node {
 	case x < 91:
 		n.Kind = KHdrDel
 		n.A["names"] = HNames[pick(g.rng, len(HNames))]
-	case x < 96:
+	case x < 94:
 		n.Kind = KStatusMod
 		n.A["statusCode"] = strconv.Itoa(Statuses[pick(g.rng, len(Statuses))])
+	case x < 98:
+		// rewrites parts of the request URL: url / url-regex / querystring / port filters
+		// evaluated later - and on the response of the exchange - see the new URL
+		n.Kind = KURLMod
+		for len(n.A) == 0 {
+			if g.rng.Intn(4) == 0 {
+				n.A["scheme"] = Schemes[pick(g.rng, len(Schemes))]
+			}
+			if g.rng.Intn(2) == 0 {
+				n.A["host"] = Hosts[pick(g.rng, len(Hosts))]
+			}
+			if g.rng.Intn(3) == 0 {
+				n.A["path"] = Paths[pick(g.rng, len(Paths))]
+			}
+			if g.rng.Intn(4) == 0 {
+				n.A["query"] = Queries[1+pick(g.rng, len(Queries)-1)]
+			}
+		}
 	default:
 		n.Kind = KNoop
 		n.A["name"] = "n" + g.id()
